@@ -114,7 +114,9 @@ def wrapper_rules(prog, rep, rule="WRAP", parts=("state", "reads", "reaches", "a
                 an.run()
                 names = [p for p in fi.params if p not in ("self", "cls")]
                 for i, p in enumerate(names):
-                    ws = [w for w in mutations_of_param(an, i) if w.fn == fi.short]
+                    # writes made by the wrapper itself or by helpers of its module; what the storage method it calls does to
+                    # its arguments (e.g. setting event.id) is judged by the ownership rules of the storage
+                    ws = [w for w in mutations_of_param(an, i) if w.fn == fi.short or not any(w.fn.startswith(c + ".") for c in ("MemoryStorage", "SqliteStorage", "PeeweeStorage", "AbstractStorage", "EventModel", "BucketModel", "Event"))]
                     if ws:
                         w = ws[0]
                         rep.violation(rule, fi.short, f"argument {p}", f"the wrapper writes into the object it was given: `{w.how}` on {p}.{'.'.join(str(x) for x in w.node[2])}[{w.label if not isinstance(w.label, tuple) else w.label[1]}] at {w.loc}: what reaches the storage (and what the caller still holds) is not what the caller passed", w.loc)
